@@ -21,7 +21,9 @@ RULE = (
     "coordinates; reference points weakly dominated by the set (equality allowed); penalties "
     "with NaN/<=0/>0 and n_below for the rank; for HSSP arbitrary and mutually non-dominated sets "
     "with duplicates, every subset size, plus tens of thousands of tiny 3-D/4-D lattice instances "
-    "where exact volume ties are frequent. Oracles: exact dominated volume by inclusion-exclusion in "
+    "where exact volume ties are frequent and of 2-objective staircases with a wide dynamic range "
+    "(the 2-D solver is separate code); a third of the hypervolume cases are Pareto fronts by "
+    "construction, with repeated members (what assume_pareto=True callers pass). Oracles: exact dominated volume by inclusion-exclusion in "
     "fractions.Fraction (cross-checked by coordinate-compressed cell counting for small cases), "
     "repeated O(n^2) Pareto peeling, exhaustive best subset. Non-trivial = the set has a "
     "duplicate, a per-coordinate tie, a dominated point or an infinity; distinct = distinct "
